@@ -977,11 +977,14 @@ func (x *Exec) callFunc(st *State, fr *Frame, ci *callInfo, fn *ssa.Function, ar
 		if cls, ok := x.root.AtCalls[shortFuncName(fn)]; ok {
 			c := x.envFor(st, x.entry, st.Frames[0], nil)
 			c.frames = st.Frames
+			sigp := fn.Signature.Params()
+			off := 0
+			if fn.Signature.Recv() != nil {
+				off = 1
+			}
 			for i, a := range args {
-				var pt types.Type
-				if i < len(fn.Params) {
-					pt = fn.Params[i].Type()
-					c.names["arg_"+fn.Params[i].Name()] = cv{V: a, T: pt}
+				if i-off >= 0 && i-off < sigp.Len() {
+					c.names["arg_"+sigp.At(i-off).Name()] = cv{V: a, T: sigp.At(i-off).Type()}
 				}
 			}
 			for _, cl := range cls {
